@@ -709,6 +709,98 @@ class F:
                     return {"map": d_txt, "src": self.x(n.stmt.iter), "key": kk, "val": vv, "kept": kept, "sorted": is_sorted, "nodes": sts, "loop": n}
         return None
 
+    def dict_build(self, value: ast.AST, _depth: int = 0):
+        """How a dict value is put together, whatever the spelling (literal, `**{..}`, comprehension, `d = {}` filled by
+        constant-key stores, loops and `update`).  Returns {"const": {key text: value AST (local-expanded)},
+        "families": [{src, key, val, kept}]} where a family is "for the items of src: key -> val if kept" with the loop
+        variables renamed V0, V1, ..; or None when some part is not understood."""
+        if _depth > 4:
+            return None
+        g = self.g
+        out = {"const": {}, "families": []}
+
+        def canon_family(target, key, val, kept, src_txt):
+            names = [x.id for x in (target.elts if isinstance(target, ast.Tuple) else [target]) if isinstance(x, ast.Name)]
+            if len(names) != (len(target.elts) if isinstance(target, ast.Tuple) else 1):
+                return None
+            ren = {n_: f"V{i}" for i, n_ in enumerate(names)}
+
+            class R(ast.NodeTransformer):
+                def visit_Name(self, node):
+                    return ast.copy_location(ast.Name(id=ren.get(node.id, node.id), ctx=node.ctx), node)
+
+            def r(e):
+                return R().visit(copy.deepcopy(e))
+
+            return {"src": src_txt, "key": norm(r(key)), "val": norm(r(val)), "kept": r(kept)}
+
+        def merge(o):
+            if o is None:
+                return False
+            out["const"].update(o["const"])
+            out["families"] += o["families"]
+            return True
+
+        v = value
+        if isinstance(v, ast.Dict):
+            for k, x in zip(v.keys, v.values):
+                if k is None:
+                    if not merge(self.dict_build(x, _depth + 1)):
+                        return None
+                elif isinstance(k, ast.Constant):
+                    out["const"][repr(k.value)] = self.xe(x)
+                else:
+                    return None
+            return out
+        if isinstance(v, ast.DictComp) and len(v.generators) == 1:
+            gen = v.generators[0]
+            conds = [c for i in gen.ifs for c in M.conjuncts(i)]
+            kept = ast.BoolOp(op=ast.And(), values=conds) if len(conds) > 1 else conds[0] if conds else ast.Constant(value=True)
+            fam = canon_family(gen.target, v.key, v.value, kept, self.x(gen.iter))
+            if fam is None:
+                return None
+            out["families"].append(fam)
+            return out
+        if isinstance(v, ast.Call) and isinstance(v.func, ast.Name) and v.func.id == "dict" and not v.args:
+            for k in v.keywords:
+                if k.arg is None:
+                    if not merge(self.dict_build(k.value, _depth + 1)):
+                        return None
+                else:
+                    out["const"][repr(k.arg)] = self.xe(k.value)
+            return out
+        if isinstance(v, ast.Name):
+            inits = [(i, g.nodes[i].stmt.value) for i, val, b in self.stores(v.id)]
+            if len(inits) != 1:
+                ev = self.xe(v)
+                return self.dict_build(ev, _depth + 1) if not isinstance(ev, ast.Name) else None
+            if not merge(self.dict_build(inits[0][1], _depth + 1)):
+                return None
+            handled = set()
+            for i, val, b in self.stores(f"{v.id}[__k]"):
+                st = g.nodes[i].stmt
+                k = b["__k"]
+                loop = next((n for n in g.nodes if n.kind == "for" and any(x is st for b_ in n.stmt.body for x in ast.walk(b_))), None)
+                if loop is None:
+                    if not isinstance(k, ast.Constant) or not self.hit_before(g.exit, nodes=[i]):
+                        return None
+                    out["const"][repr(k.value)] = self.xe_at(i, st.value)
+                else:
+                    kept = self.condition_of((loop.idx, "iter"), [loop.idx], [i])
+                    fam = canon_family(loop.stmt.target, k, st.value, kept, self.x(loop.stmt.iter))
+                    if fam is None:
+                        return None
+                    out["families"].append(fam)
+                handled.add(i)
+            for i, c, b in self.call_sites(f"{v.id}.update(__o)"):
+                if not self.hit_before(g.exit, nodes=[i]) or not merge(self.dict_build(b["__o"], _depth + 1)):
+                    return None
+            others = [i for m_ in ("pop", "popitem", "clear", "setdefault", "__delitem__") for i, c, b in self.call_sites(f"{v.id}.{m_}(___)")] + self.deletes(f"{v.id}[__k]")
+            if others:
+                return None
+            return out
+        return None
+
     def list_filter(self, value: ast.AST):
         """Recognise `value` as an order-preserving filtered copy of a sequence: `[x for x in SRC if COND]` or a name built by
         `L = []; for x in SRC: [conditions] L.append(x)`.  Returns {src, var, kept (condition AST), nodes} or None."""
